@@ -14,11 +14,13 @@ fn k(n: &str) -> Act {
     Act::Key(kc(n))
 }
 
-/// kind 0: keys only; 1: layer-while-held as 2nd/3rd action; 2: a tap-hold inside.
+/// kind 0: keys only; 1: layer-while-held as 2nd/4th action; 2: a tap-hold inside; 3: layer-while-held first.
 fn td_acts(len: usize, kind: usize) -> Vec<Act> {
     let all = match kind {
         0 => vec![k("x"), k("y"), k("z"), Act::Chord(vec![kc("lsft"), kc("1")])],
         1 => vec![k("x"), Act::LayerHeld(1), k("z"), Act::LayerHeld(1)],
+        // the list begins with a layer action
+        3 => vec![Act::LayerHeld(1), k("y"), Act::LayerHeld(1), k("z")],
         _ => vec![k("x"), th_act(ThVariant::Plain, false, 4, 0, "y", "lctl"), k("z"), th_act(ThVariant::Press, true, 4, 0, "t", "lctl")],
     };
     all[..len].to_vec()
@@ -48,7 +50,7 @@ fn exh_cfgs(tier: Tier) -> Vec<(MCfg, u32)> {
     for eager in [false, true] {
         for t in [5u16, 30] {
             for len in 1..=4usize {
-                for (kind, p) in [(0usize, 0u16), (1, 5), (2, 0), (0, 5)] {
+                for (kind, p) in [(0usize, 0u16), (1, 5), (2, 0), (0, 5), (3, 0)] {
                     if tier == Tier::Quick && ((kind == 2 && t == 30) || (kind == 0 && p == 5) || (t == 30 && len == 3)) {
                         continue;
                     }
@@ -107,7 +109,7 @@ impl TypedProp for C17 {
     fn info(&self) -> PropInfo {
         PropInfo {
             level: "exploration",
-            rule: "exhaustive part: for each tap-dance config (lazy/eager x T {5,30} x list length 1-4 x action kinds keys / layer-while-held / tap-hold inside x rapid-event-delay {0,5}) every toggle schedule of 1..N events over the tap-dance key and one other key with gaps {0,1,T-1,T,T+1}; random part: longer histories (up to 40 events) on random configs of the same family, the other key being plain (2 in 3), a tap-dance of its own (lazy or eager), or a tap-hold with concurrent-tap-hold on or off. Oracle: reference model with the documented eviction rule (only the counted taps are folded into the chosen action; every other press is accounted for), full timestamped equality. Non-trivial: >= 2 presses of the tap-dance key, or a gap within +-1 of T. Distinct: hash of (config, history).",
+            rule: "exhaustive part: for each tap-dance config (lazy/eager x T {5,30} x list length 1-4 x action kinds keys / layer-while-held (later in the list, or first) / tap-hold inside x rapid-event-delay {0,5}) every toggle schedule of 1..N events over the tap-dance key and one other key with gaps {0,1,T-1,T,T+1}; random part: longer histories (up to 40 events) on random configs of the same family, the other key being plain (2 in 3), a tap-dance of its own (lazy or eager), or a tap-hold with concurrent-tap-hold on or off. Oracle: reference model with the documented eviction rule (only the counted taps are folded into the chosen action; every other press is accounted for), full timestamped equality. Non-trivial: >= 2 presses of the tap-dance key, or a gap within +-1 of T. Distinct: hash of (config, history).",
             assumptions: vec!["fewer than 32 events pending".into(), "pinned conventions of DESIGN.md Appendix A.4".into()],
             extra: BTreeMap::new(),
         }
@@ -143,7 +145,7 @@ impl TypedProp for C17 {
         }
     }
     fn strategy(&self, _tier: Tier, _key: u32) -> BoxedStrategy<MCase> {
-        (any::<bool>(), prop::sample::select(vec![5u16, 8, 30]), 1usize..=4, 0usize..3, prop::sample::select(vec![0u16, 3, 5]), (0u8..6, any::<bool>(), any::<bool>()))
+        (any::<bool>(), prop::sample::select(vec![5u16, 8, 30]), 1usize..=4, 0usize..4, prop::sample::select(vec![0u16, 3, 5]), (0u8..6, any::<bool>(), any::<bool>()))
             .prop_flat_map(|(eager, t, len, kind, p, (other, other_eager, conc))| {
                 let mut cfg = td_cfg(eager, t, len, kind, p);
                 // the other key: mostly plain; a second tap-dance of its own; a tap-hold (the
